@@ -79,7 +79,16 @@ func vhCandidate(s *Server, d *commandDetails, h *Hook) bool {
 	return false
 }
 
-//verif:cfg b_detect=all_32_subsets+default b_positions=6x6(2_inside,4_outside,crossing_W-E_and_N-S) b_fence=WITHIN|INTERSECTS_BOUNDS b_other_hooks=1 ignorego=1
+// vhDelivered is what queueHooks hands to the hook's receivers for one change: the fence messages, provided
+// the hook is among the candidates the index look-ups select.
+func vhDelivered(s *Server, d *commandDetails, h *Hook) []string {
+	if !vhCandidate(s, d, h) {
+		return nil
+	}
+	return vhDetectsOf(FenceMatch(h.Name, h.ScanWriter, h.Fence, h.Metas, d))
+}
+
+//verif:cfg b_detect=all_32_subsets+default b_positions=6x6(2_inside,4_outside,crossing_W-E_and_N-S) b_fence=WITHIN|INTERSECTS_BOUNDS b_other_hooks=1 b_definition=first|redefined_from_another_area|redefined_from_another_DETECT_list b_delete=DEL|PDEL ignorego=1
 func VH_C05_static_fence() {
 	s := vhServer()
 	// DETECT subset (32 = default, i.e. no DETECT clause)
@@ -105,6 +114,15 @@ func VH_C05_static_fence() {
 		args = append(args, "DETECT", list)
 	}
 	args = append(args, "BOUNDS", "0", "0", "10", "10")
+	// the fence may replace an earlier definition under the same name: it then behaves like a fresh one
+	switch vchoose(3) {
+	case 1:
+		vhDo(s, "SETCHAN", "ch", kind, "fleet", "FENCE", "BOUNDS", "20", "20", "30", "30")
+		vreach("redefined")
+	case 2:
+		vhDo(s, "SETCHAN", "ch", kind, "fleet", "FENCE", "DETECT", "inside,outside,cross", "BOUNDS", "0", "0", "10", "10")
+		vreach("redefined")
+	}
 	_, _, err := vhDo(s, args...)
 	vassert("C05.setchan_ok", err == nil)
 	// another fence elsewhere, so that the hook trees hold more than one entry
@@ -118,6 +136,7 @@ func VH_C05_static_fence() {
 	m1 := FenceMatch(h.Name, h.ScanWriter, h.Fence, h.Metas, &d1)
 	want1 := vhExpected(false, vhPosInside[p1], false, det, all)
 	vassert("C05.first_set_notifications", vhSameStrings(vhDetectsOf(m1), want1))
+	vassert("C05.first_set_delivered", vhSameStrings(vhDelivered(s, &d1, h), want1))
 	if len(want1) > 0 {
 		vassert("C05.first_set_candidate", vhCandidate(s, &d1, h))
 	}
@@ -128,6 +147,7 @@ func VH_C05_static_fence() {
 	got2 := vhDetectsOf(m2)
 	vobs("move", p1, p2, sub, len(got2))
 	vassert("C05.move_notifications", vhSameStrings(got2, want2))
+	vassert("C05.move_delivered", vhSameStrings(vhDelivered(s, &d2, h), want2))
 	if len(want2) > 0 {
 		vassert("C05.move_candidate_not_dropped", vhCandidate(s, &d2, h))
 	}
@@ -146,11 +166,19 @@ func VH_C05_static_fence() {
 		want3 = vhExpected(false, false, false, det, all)
 	}
 	vassert("C05.fset_notifications", vhSameStrings(vhDetectsOf(m3), want3))
+	vassert("C05.fset_delivered", vhSameStrings(vhDelivered(s, &d3, h), want3))
 	if len(want3) > 0 {
 		vassert("C05.fset_candidate_not_dropped", vhCandidate(s, &d3, h))
 	}
-	// DEL: one del message
-	_, d4, _ := vhDo(s, "DEL", "fleet", "truck")
+	// DEL / PDEL: one del message
+	var d4 commandDetails
+	if vnondetBool() {
+		_, d4, _ = vhDo(s, "DEL", "fleet", "truck")
+	} else {
+		_, dp, _ := vhDo(s, "PDEL", "fleet", "tr*")
+		vassert("C05.pdel_one_child", dp.parent && len(dp.children) == 1)
+		d4 = *dp.children[0]
+	}
 	m4 := FenceMatch(h.Name, h.ScanWriter, h.Fence, h.Metas, &d4)
 	vassert("C05.del_message", len(m4) == 1 && gjson.Get(m4[0], "command").String() == "del" && gjson.Get(m4[0], "id").String() == "truck")
 	if vhPosInside[p2] {
